@@ -1001,6 +1001,37 @@ class Interp:
                             else:
                                 work.append(s4)
             return out
+        if tr == "std::iter::Iterator" and nm == "find_map" and len(args) == 2 and not fn.get("resolved_local") and \
+                self.known_elems(st, self.deref(st, args[0]) if args[0][0] == "ref" else args[0]) is not None:
+            # a search through a constant table with a mapping predicate: the first element it maps to Some
+            out = []
+            work = [st]
+            rounds = 0
+            while work and rounds < 200:
+                rounds += 1
+                s_ = work.pop()
+                for s2, nxt in self.iter_next(s_, args[0], depth, stack):
+                    if nxt[2] == "None":
+                        out.append((s2, nxt))
+                        continue
+                    for s3, r in self.apply(s2, args[1], [nxt[3][0]], depth + 1, stack):
+                        for s4, var, pl in self.cases(s3, r, O):
+                            if var == "Some":
+                                out.append((s4, self.mk(O, "Some", pl[0])))
+                            else:
+                                work.append(s4)
+            return out
+        if p in ("core::bool::<impl bool>::then_some", "std::bool::<impl bool>::then_some", "core::bool::<impl bool>::then", "std::bool::<impl bool>::then") and len(args) == 2:
+            out = []
+            for s2, yes in self.branch_bool(st, args[0]):
+                if not yes:
+                    out.append((s2, self.mk(O, "None")))
+                elif nm == "then_some":
+                    out.append((s2, self.mk(O, "Some", args[1])))
+                else:
+                    for s3, r in self.apply(s2, args[1], [], depth + 1, stack):
+                        out.append((s3, self.mk(O, "Some", r)))
+            return out
         if tr == "std::iter::Iterator" and nm == "filter" and len(args) == 2 and not fn.get("resolved_local"):
             # an adaptor whose predicate is provably always true is the identity
             probe = st.fork()
